@@ -119,7 +119,23 @@ class PhaseGen:
     def block(self, n, depth):
         r = self.rng
         for _ in range(n):
-            if r.random() < 0.2 and depth < 2:
+            if r.random() < 0.08 and depth < 1:
+                # an if_ whose body holds a nested if_ closed without an else_, followed by the else_ of
+                # the outer block (the else_ must complement the OUTER condition)
+                g = self.gen(PERSIST_INT + TEMPS + ["<t>"])
+                saved = set(self.avail)
+                self.prog.append(["if", c02.norm_expr(g.bool_expr(1))])
+                self.stmt(depth + 1)
+                self.prog.append(["if", c02.norm_expr(g.bool_expr(1))])
+                self.stmt(depth + 2)
+                self.prog.append(["endif"])
+                self.avail = set(saved)
+                self.prog.append(["endif"])
+                self.prog.append(["else"])
+                self.stmt(depth + 1)
+                self.prog.append(["endelse"])
+                self.avail = set(saved)
+            elif r.random() < 0.2 and depth < 2:
                 g = self.gen(PERSIST_INT + TEMPS + ["<t>"])
                 cond = c02.norm_expr(g.bool_expr(1))
                 if r.random() < 0.25:
@@ -430,7 +446,12 @@ def differ(a, b):
 
 
 def oracle(case):
-    code = make_code(case)
+    try:
+        code = make_code(case)
+    except Exception as ex:  # noqa: BLE001
+        o = {"kind": "builder_raises", "exception": "%s: %s" % (type(ex).__name__, ex)}
+        empty = {"events": [], "end": ["crash", "builder"], "next": case["first"], "final": [], "orders": []}
+        return o, empty, dict(empty), [], False
     obs = persistent_names(case)
     ri = run_interp(case, code, obs)
     try:
@@ -629,6 +650,8 @@ def main(tier):
             key = o["kind"] + (":known" if classify_known(o, case) else "")
             if key not in failing or len(json.dumps(case)) < len(json.dumps(failing[key][0])):
                 failing[key] = (case, o)
+        if o is not None and o["kind"] == "builder_raises":
+            continue
         use_i = ri if in_universe(ri) and not has_pow(case) else None
         use_g = rg if (hdef and in_universe(rg)) and not has_pow(case) else None
         if use_i is not None or use_g is not None:
@@ -645,9 +668,12 @@ def main(tier):
             continue
         c2 = shrink(case, o["kind"])
         o2 = oracle(c2)[0] or o
+        try:
+            ptxt = str(make_code(c2))
+        except Exception as ex:  # noqa: BLE001
+            ptxt = "(CodeBuilder raised %s)" % type(ex).__name__
         rep.violation({"what": "interpreter and generated Python class disagree (or generation fails) on a "
-                               "builder program", "case": c2,
-                       "program": str(make_code(c2)), "oracle": o2})
+                               "builder program", "case": c2, "program": ptxt, "oracle": o2})
 
     mism, n_eval, errors = [], 0, []
     if os.path.exists(os.path.join(common.COQ, "model", "StepperCheck.vo")) and \
